@@ -435,12 +435,11 @@ func (c *Classifier) multipleMatch(unknown string) *pq.Queue {
 	wg.Add(len(kvals))
 	for _, known := range kvals {
 		go func(known *knownValue) {
+			c.muValues.Lock()
 			if known.set == nil {
-				k := searchset.New(known.normalizedValue, searchset.DefaultGranularity)
-				c.muValues.Lock()
-				c.values[known.key].set = k
-				c.muValues.Unlock()
+				known.set = searchset.New(known.normalizedValue, searchset.DefaultGranularity)
 			}
+			c.muValues.Unlock()
 			m.findMatches(known)
 			wg.Done()
 		}(known)
